@@ -170,6 +170,26 @@ def body(run):
                     cause = 'gain-offset-degenerate-window'
             run.add_violation('a valid source pixel is invalid in the corrected image although the reference is valid there and the data are positive', desc,
                               observed=dict(pixel=[r, c], n=int(lost.sum())), signature=dict(kind='mask-lost', model=model, cause=cause))
+    # ---- bands with different footprints, several blocks: the validity of EACH corrected band is the validity of that source band
+    from harness import impl_e2e as e2e
+    for k in range(run.scale(2, 8)):
+        model = ['gain', 'gain-blk-offset'][k % 2]
+        bc = e2e.band_footprints_case(run.work, rng, model=model, tag='bf', threads=[2, 1][k % 2])
+        C = bc['res']['corr']['array']
+        dist['band-footprints/' + model] = dist.get('band-footprints/' + model, 0) + 1
+        run.count_case(('bf', k), True, bc['desc'] if k < 1 else None)
+        for b in range(2):
+            got = np.isfinite(C[b])
+            if (got & ~bc['valid'][b]).any():
+                run.add_violation('a corrected pixel is valid although the source pixel is not', dict(bc['desc'], band=b + 1),
+                                  observed=dict(n=int((got & ~bc['valid'][b]).sum())), signature=dict(kind='mask-invented'))
+                break
+            lost = bc['valid'][b] & ~got
+            if lost.any():
+                r, c = [int(v) for v in np.argwhere(lost)[0]]
+                run.add_violation('a valid source pixel is invalid in the corrected image although the reference is valid there and the data are positive', dict(bc['desc'], band=b + 1),
+                                  observed=dict(pixel=[r, c], n=int(lost.sum())), signature=dict(kind='mask-lost', model=model, cause='other'))
+                break
     run.cov['rule'] = ('real fusions of positive textured data with the reference valid over the footprint: geometries (ratios, sub-pixel offsets with the x.5 / x.25 '
                        'family over-sampled, origins up to 7.6e6), source masks (holes, 1-px islands, borders, a nearly empty block), 3 models, kernels incl. h != w, '
                        '3 grids, source invalidity stored as NaN / finite nodata (-9999, 0, 1000) / internal mask / uint16 0, 1..30 blocks, nearest / bilinear / cubic-spline up-sampling, output nodata NaN / numeric / internal mask on float32 / uint16 / float64: '
